@@ -7,14 +7,18 @@ use crate::storeops::*;
 
 fn dump(uni: &Universe) -> Vec<SOp> {
     let mut v = Vec::new();
+    // the list of documents is read first and last: a removal bracketed by two dumps is then directly
+    // preceded and directly followed by it (it is served from a cached read snapshot, which the removal
+    // must not leave in place)
+    v.push(SOp::ListNamespaces);
     for id in uni.all_ids() {
         v.push(SOp::GetAll { ns: id });
         v.push(SOp::Heads { ns: id });
         v.push(SOp::GetPeers { ns: id });
         v.push(SOp::GetPolicy { ns: id });
     }
-    v.push(SOp::ListNamespaces);
     v.push(SOp::ContentHashes);
+    v.push(SOp::ListNamespaces);
     v
 }
 
